@@ -26,6 +26,11 @@ def vectors(kind):
         return [dict(BASE), dict(BASE, inline_functions=False), dict(BASE, inline_functions=False, use_push_pop_functions=True),
                 dict(BASE, inline_functions=False, tail_call_optimization=True), dict(BASE, use_push_pop_functions=True, tail_call_optimization=True),
                 dict(BASE, inline_functions=False, compact=True, remove_labels=True), dict(BASE, inline_functions=False, compact=True)]
+    if kind == "version":
+        # the version note is appended to emitted text of every layout (comments on/off, source as comment, compact)
+        v = {"append_version": True}
+        return [dict(v), dict(v, generated_comments=False), dict(v, original_code_as_comment=True), dict(v, compact=True),
+                dict(v, inline_functions=False), dict(v, generated_comments=False, original_code_as_comment=True, remove_labels=True)]
     if kind == "cover16":
         return [H.options_from_bits(b) for b in COVER16] + SUITE
     if kind == "all256":
@@ -54,7 +59,7 @@ def function_labels(sources):
                 alias[bits[0]] = bits[2]
     for mod, text in srcs.items():
         mod = alias.get(mod, mod)
-        for m in re.finditer(r"^def\s+([A-Za-z_][A-Za-z0-9_]*)\s*\(", text, re.M):
+        for m in re.finditer(r"^[ \t]*def\s+([A-Za-z_][A-Za-z0-9_]*)\s*\(", text, re.M):
             name = (mod + "." if mod else "") + m.group(1)
             out.add(name.replace("_", "."))
     return out
@@ -179,6 +184,13 @@ def check_regions(sources, code, env):
                 fails.append(f"jump from main line {prev} into the middle of a function region (line {nxt})")
                 break
         m.pc = nxt
+    if not fails:
+        # the exit sequence of a function ('j ra') executed from the main code with no call in progress: function code
+        # that was laid out inside the main code and entered without a call
+        for ev in m.call_events:
+            if ev[0] == "ret-without-call" and region_of.get(ev[1]) is None:
+                fails.append(f"'j ra' at main-code line {ev[1]} executed with no call in progress: code of a function body sits in the main code and was entered without a call")
+                break
     return fails, info
 
 
